@@ -560,7 +560,9 @@ class BaseDocutilsDirective(tinydocutils.directives.Directive):
                 match_titles=True,
             )
         else:
-            argument_text = arg_lines[0]
+            # All of it: an argument that runs over several lines and is followed by options
+            # used to lose everything after its first line
+            argument_text = self.arguments[0]
             textnodes, messages = self.state.inline_text(argument_text, self.lineno)
             argument = directive_argument(argument_text, "", *textnodes, *messages)
             argument.document = self.state.document
